@@ -300,24 +300,31 @@ static void stream_check(vf::Ctx& ctx, const char* name, Op& op, int nev, int nc
     using S = typename Op::Scalar;
     const int n = (int) op.rows();
     Solver es(op, nev, ncv);
-    g_expand_calls = 0;
-    op.inputs.clear();
-    es.init();
-    const size_t after_init = op.inputs.size();
-    try { es.compute(rule, 30, 1e-10); } catch (const std::exception&) {}
     auto info = [&]() { return vf::J().kv("solver", name).kv("n", n).kv("nev", nev).kv("ncv", ncv); };
-    ctx.count("solver_streams/default_inits");
-    if (after_init < 1 || !StreamRef<S>::matches(op.inputs[0].data(), n, 0))
-        ctx.violation(std::string("solver-stream/default-start-vector-is-not-the-stream-of-seed-0/") + name, info().str());
-    long recognised = 0;
-    for (size_t q = after_init; q < op.inputs.size(); q++)
-        for (int i = 1; i <= ncv; i++)
-            if (StreamRef<S>::matches(op.inputs[q].data(), n, 2UL * (unsigned long) i)) { recognised++; break; }
-    ctx.count("solver_streams/expand_basis_calls", g_expand_calls);
-    ctx.count("solver_streams/first_try_vectors_recognised", recognised);
-    if (recognised != g_expand_calls)
-        ctx.violation(std::string("solver-stream/restart-vector-is-not-a-park-miller-stream/") + name, info().kv("expand_basis_calls", g_expand_calls).kv("operator_inputs_equal_to_a_stream_of_seed_2i", recognised).str());
-    if (want_breakdowns && g_expand_calls == 0) ctx.inconclusive("no breakdown in a rank-deficient run");
+    // the generators are local objects seeded at the call sites: the SAME streams must come again on every later default init() / restart of the same solver
+    // object (a generator kept in the object, or anywhere else, would continue its stream instead)
+    const int sessions = (int) ctx.rng.range(1, 3);
+    for (int sess = 0; sess < sessions; sess++)
+    {
+        g_expand_calls = 0;
+        op.inputs.clear();
+        es.init();
+        const size_t after_init = op.inputs.size();
+        try { es.compute(rule, sess == 0 ? 30 : (long) ctx.rng.range(1, 30), 1e-10); } catch (const std::exception&) {}
+        ctx.count("solver_streams/default_inits");
+        if (sess > 0) ctx.count("solver_streams/default_inits_on_a_used_object");
+        if (after_init < 1 || !StreamRef<S>::matches(op.inputs[0].data(), n, 0))
+            ctx.violation(std::string("solver-stream/default-start-vector-is-not-the-stream-of-seed-0/") + name, info().kv("init_number_on_this_object", sess + 1).str());
+        long recognised = 0;
+        for (size_t q = after_init; q < op.inputs.size(); q++)
+            for (int i = 1; i <= ncv; i++)
+                if (StreamRef<S>::matches(op.inputs[q].data(), n, 2UL * (unsigned long) i)) { recognised++; break; }
+        ctx.count("solver_streams/expand_basis_calls", g_expand_calls);
+        ctx.count("solver_streams/first_try_vectors_recognised", recognised);
+        if (recognised != g_expand_calls)
+            ctx.violation(std::string("solver-stream/restart-vector-is-not-a-park-miller-stream/") + name, info().kv("init_number_on_this_object", sess + 1).kv("expand_basis_calls", g_expand_calls).kv("operator_inputs_equal_to_a_stream_of_seed_2i", recognised).str());
+        if (want_breakdowns && g_expand_calls == 0 && sess == 0) { ctx.inconclusive("no breakdown in a rank-deficient run"); break; }
+    }
     ctx.count("evals");
 }
 static void solver_streams(vf::Ctx& ctx, long t)
